@@ -95,6 +95,7 @@ C16Clauses(sol, ex) ==
     <<"R16_json_indicators", ex.json.indicators = sol.indicators>>,
     <<"R16_json_horizon", ex.json.horizon = sol.horizon>>,
     <<"R16_json_compact_is_the_same_document", Len(ex.json_compact_diff) = 0>>,
+    <<"R16_xlsx_with_colours_holds_the_same_items", Len(ex.xlsx_colors_diff) = 0>>,
     <<"R16_csv_rows", ex.csv = TaskRows(sol)>>,
     <<"R16_dataframe_rows", ex.df = TaskRows(sol)>>,
     <<"R16_xlsx_resource_names", ex.xlsx.resource_names = [i \in 1..Len(sol.resources) |-> sol.resources[i].name]>>,
